@@ -321,7 +321,7 @@ pub fn gen_val(rng: &mut Rng) -> Val {
         4 => Val::U16(gen_port(rng)),
         5 => Val::Str((*rng.pick(&["", "a", "lighthouse", "v1.2.3-\u{e9}", "x86_64-linux"])).to_string()),
         6 => {
-            let n = rng.usize_below(4);
+            let n = rng.usize_below(7);
             Val::ListStr((0..n).map(|_| gen_small_bytes(rng)).map(|mut b| { b.truncate(12); b }).collect())
         }
         _ => {
@@ -410,6 +410,55 @@ fn pad_op(w: &World, node: usize, target: usize) -> Option<Op> {
     None
 }
 
+/// State the generator carries along one run.
+#[derive(Default)]
+pub struct GenState {
+    pub enums_done: u32,
+    pub pending: std::collections::VecDeque<Event>,
+}
+
+/// The size x seq-growth knob: a short plan `set_seq(b-2); insert(pad); O` such that the result of
+/// an arbitrary update O lands on a chosen size around the limit while the sequence number's
+/// encoding grows (b = 128, 256, 65536, ...) on that very update.
+fn boundary_plan(rng: &mut Rng, w: &World, node: usize, p: &Profile) -> Option<Vec<Event>> {
+    let mut model = w.nodes[node].model()?.clone();
+    let sig = w.nodes[node].backend().sig_len_fixed()?;
+    let info = crate::ops::SignerInfo { pk_kind: model.pk_kind, pk: model.pk.clone(), sig_len: sig, will_fail: false };
+    let mut q = p.clone();
+    q.size_knob = false;
+    q.bad_arg_pct = 0;
+    let o = gen_op(rng, w, node, &q);
+    if matches!(o, Op::SetSeq(_)) {
+        return None;
+    }
+    let mut evs = Vec::new();
+    let n8 = node as u8;
+    if rng.chance(3, 4) {
+        let b: u64 = *rng.pick(&[128u64, 256, 65536, 1 << 24, 1 << 32, 1 << 40, 1 << 56]);
+        model.seq = b - 2;
+        evs.push(Event::Op { node: n8, slot: 0, op: Op::SetSeq(b - 2) });
+    }
+    let target = if rng.chance(3, 4) { rng.range(299, 302) as usize } else { rng.range(280, 320) as usize };
+    let sel = match &o {
+        Op::SetPublicKey(_) => Some(info.pk.clone()),
+        _ => None,
+    };
+    for n in 0..300usize {
+        let pad = Op::Insert { key: b"zzpad".to_vec(), val: Val::Bytes(vec![0xaa; n]) };
+        let m1 = model.predict(&pad, &info, None).next;
+        let pr = m1.predict(&o, &info, sel.clone());
+        if pr.size == target {
+            evs.push(Event::Op { node: n8, slot: 0, op: pad });
+            evs.push(Event::Op { node: n8, slot: 0, op: o });
+            return Some(evs);
+        }
+        if pr.size > target + 4 {
+            break;
+        }
+    }
+    None
+}
+
 pub fn gen_op(rng: &mut Rng, w: &World, node: usize, p: &Profile) -> Op {
     let bad = rng.chance(p.bad_arg_pct, 100);
     if p.size_knob && rng.chance(1, 4) {
@@ -482,8 +531,8 @@ pub fn gen_op(rng: &mut Rng, w: &World, node: usize, p: &Profile) -> Op {
                 };
                 insert.push((key, v));
             }
-            if !bad {
-                // keep it within what the doc comment pins down: no repeated / overlapping keys
+            if !bad && !rng.chance(1, 4) {
+                // mostly disjoint key sets; one time in four repeated / overlapping keys stay
                 remove.sort();
                 remove.dedup();
                 insert.sort();
@@ -628,6 +677,19 @@ fn gen_user_pairs(rng: &mut Rng, unusual: bool) -> Vec<(Vec<u8>, Vec<u8>)> {
     if unusual && rng.chance(1, 3) {
         m.insert(vec![b'K'; 57], rlp::enc_str(b"long key"));
     }
+    if rng.chance(1, 5) {
+        // EIP-7636 client entry: well-formed (2-3 strings) and not (0, 1, 4+ strings, nested, a string)
+        let v = match rng.below(7) {
+            0 => rlp::enc_list_of_strs(&[b"geth", b"1.0"]),
+            1 => rlp::enc_list_of_strs(&[b"geth", b"1.0", b"linux"]),
+            2 => rlp::enc_list_of_strs(&[b"geth", b"1.0", b"linux", b"extra"]),
+            3 => rlp::enc_list_of_strs(&[b"geth"]),
+            4 => vec![0xc0],
+            5 => rlp::enc_list(&rlp::enc_list_of_strs(&[b"geth", b"1.0"])),
+            _ => rlp::enc_str(b"geth/1.0"),
+        };
+        m.insert(b"client".to_vec(), v);
+    }
     m.into_iter().collect()
 }
 
@@ -743,7 +805,7 @@ pub fn gen_txtfault(rng: &mut Rng) -> NetFault {
         1 => NetFault::TxtInsert(i, *rng.pick(&[' ', '\n', '=', '+', '/', '.', 'A', '\u{e9}'])),
         2 => NetFault::TxtStdAlphabet,
         3 => NetFault::TxtPad(rng.range(1, 3) as u8),
-        4 => NetFault::TxtPrefix((*rng.pick(&["ENR:", "Enr:", "enr", "enr::", "enr;", " enr:", "e nr:", ""])).to_string()),
+        4 => NetFault::TxtPrefix((*rng.pick(&["ENR:", "Enr:", "enr", "enr::", "enr;", " enr:", "e nr:", "", "enr\u{e9}", "en\u{20ac}:", "e\u{e9}r:", "\u{e9}nr:", "e\u{1F600}"])).to_string()),
         5 | 6 => NetFault::TxtTrailingBits(rng.byte()),
         7 | 8 | 9 => NetFault::TxtBytesAfterRecord(rng.bytes(rng.clone().range(1, 8) as usize)),
         10 => NetFault::TxtDoublePrefix,
@@ -755,7 +817,15 @@ pub fn gen_txtfault(rng: &mut Rng) -> NetFault {
 
 pub fn gen_noise(rng: &mut Rng) -> (Vec<u8>, Form) {
     match rng.below(8) {
-        0 => (rng.bytes(rng.clone().range(0, 12) as usize), Form::Binary),
+        0 => {
+            let n = *rng.pick(&[0usize, 1, 1, 1, 2, 2, 3, 5, 8, 12]);
+            let mut b = rng.bytes(n);
+            if n > 0 && rng.chance(1, 2) {
+                let l = b.len() - 1;
+                b[l] &= 0x7f; // ends in a single-byte item
+            }
+            (b, Form::Binary)
+        }
         1 => {
             // plausible list header then junk
             let n = rng.range(0, 310) as usize;
@@ -765,13 +835,13 @@ pub fn gen_noise(rng: &mut Rng) -> (Vec<u8>, Form) {
             }
             (v, Form::Binary)
         }
-        2 => ((*rng.pick(&["", "e", "en", "enr", "enr:", "enr:A", "\u{e9}\u{e9}", "\u{1F600}", "enr:\u{e9}"])).as_bytes().to_vec(), Form::Text),
+        2 => ((*rng.pick(&["", "e", "en", "enr", "enr:", "enr:A", "\u{e9}\u{e9}", "\u{1F600}", "enr:\u{e9}", "enr\u{e9}", "en\u{20ac}:AAAA", "e\u{1F600}", "\u{20ac}\u{20ac}", "a\u{e9}b\u{e9}c", "\u{e9}nr:AAAA", "e\u{e9}r:AAAA", "en\u{e9}:AAAA", "enr\u{e9}AAAA"])).as_bytes().to_vec(), Form::Text),
         3 => {
             let n = rng.range(0, 60) as usize;
             let s: String = (0..n).map(|_| *rng.pick(&['A', 'Q', '-', '_', '=', ' ', 'z', '9'])).collect();
             (format!("enr:{s}").into_bytes(), Form::Text)
         }
-        4 => ((*rng.pick(&["", "\"", "\"\"", "null", "5", "[]", "\"enr:\"", "{\"a\":1}", "\"\\u0065nr:AA\""])).as_bytes().to_vec(), Form::Json),
+        4 => ((*rng.pick(&["", "\"", "\"\"", "null", "5", "[]", "\"enr:\"", "{\"a\":1}", "\"\\u0065nr:AA\"", "\"enr\u{e9}\"", "\"en\u{20ac}:AAAA\"", "\"e\u{1F600}\"", "\"en\\u00e9:AAAA\""])).as_bytes().to_vec(), Form::Json),
         5 => (vec![0xc0], Form::Binary),
         6 => {
             let b = rng.bytes(rng.clone().range(1, 80) as usize);
@@ -783,7 +853,11 @@ pub fn gen_noise(rng: &mut Rng) -> (Vec<u8>, Form) {
 
 /// Draw the next event of a run.
 #[allow(clippy::too_many_lines)]
-pub fn gen_event(rng: &mut Rng, w: &World, p: &Profile, enums_done: &mut u32) -> Event {
+pub fn gen_event(rng: &mut Rng, w: &World, p: &Profile, st: &mut GenState) -> Event {
+    if let Some(e) = st.pending.pop_front() {
+        return e;
+    }
+    let enums_done = &mut st.enums_done;
     // nodes without a record build one first
     for i in 0..w.nodes.len() {
         if !w.nodes[i].has_record() && !w.crashed[i] && rng.chance(3, 4) {
@@ -844,6 +918,12 @@ pub fn gen_event(rng: &mut Rng, w: &World, p: &Profile, enums_done: &mut u32) ->
         0 => {
             let node = pick_node(rng, w);
             let n = usize::from(node) % w.nodes.len();
+            if p.size_knob && rng.chance(1, 6) && w.nodes[n].has_record() && !w.crashed[n] {
+                if let Some(plan) = boundary_plan(rng, w, n, p) {
+                    st.pending.extend(plan);
+                    return st.pending.pop_front().expect("plan is not empty");
+                }
+            }
             Event::Op { node, slot: pick_slot(rng, p), op: gen_op(rng, w, n, p) }
         }
         1 => Event::Build { node: pick_node(rng, w), slot: pick_slot(rng, p), calls: gen_build(rng, p) },
@@ -884,7 +964,7 @@ pub fn gen_event(rng: &mut Rng, w: &World, p: &Profile, enums_done: &mut u32) ->
                 Event::Stream { msgs, suffix, list: rng.chance(2, 5) }
             }
         }
-        12 => Event::SuffixSweep { msg: pristine_msg(rng), fill: *rng.pick(&[0u8, 0x80, 0xc0, 0xf9, 0xff, 0x01]) },
+        12 => Event::SuffixSweep { msg: if rng.chance(3, 4) { pristine_msg(rng) } else { recent_msg(rng) }, fill: *rng.pick(&[0u8, 0x80, 0xc0, 0xf9, 0xff, 0x01]) },
         13 => {
             let (data, form) = gen_noise(rng);
             Event::Noise { data, form }
